@@ -251,6 +251,12 @@ func solveRace(script string, name string, timeoutS int, all bool, seed int) (ve
 		}
 		ematch := strings.Contains(sp.name, "ematch")
 		tmo := timeoutS * 12 // wall-clock safety net only; the real budget is rlimit
+		if tmo > 90 {
+			// MBQI configurations can grind for minutes on the aggregated obligations of
+			// the large traversal functions without consuming their rlimit budget; a
+			// cross-check that does not answer within 90 s is recorded as a timeout
+			tmo = 90
+		}
 		if strings.HasPrefix(sp.name, "cvc5") {
 			tmo = timeoutS * 2
 		}
